@@ -530,7 +530,9 @@ class Sectionable(BaseObject):
             else:
                 found = self._match_iterable(self.sections, pathlist[0])
 
-            if found:
+            # A Section without children is falsy (its length is 0), it can
+            # still be a step of the path.
+            if found is not None:
                 return found._get_section_by_path("/".join(pathlist[1:]))
 
             raise ValueError("Section named '%s' does not exist" % pathlist[0])
